@@ -11,5 +11,5 @@ CONSTANTS
   Contexts = {}
   MaxLen = 3
   TailLen = 0
-  DeepReps = {1000, 3000000}
+  DeepReps = {1000, 3000000, 30000000}
 INVARIANT Emit
